@@ -51,7 +51,10 @@ def relation(fam, ty, p, base):
     if fam == "frechet": return R(p[0] + R(p[1] * base)), 0
     if fam == "skewnormal": return R(R(base * p[1]) + p[0]), 0
     if fam in ("weibull", "pareto"): return R(p[0] * base), 0
-    if fam == "gamma": return base * p[1], 3
+    if fam == "gamma":
+        # shape < 1: the code multiplies by the scale LAST ((a*b*d) * scale, gamma.rs "do it last to avoid inf * 0"), so the sample is
+        # finite whenever the map of the standard sample is; shape >= 1: v * (d*scale) (d*scale may overflow first). Values within 3 ulp.
+        return base * p[1], 3
     if fam == "invgauss": return R(base * p[2]), 0      # c is a power of two: every operation scales exactly
     return None, 0
 
@@ -98,6 +101,16 @@ def correspond(ctx):
                 for s in range(nstreams):
                     words = S.adversarial_words(rng, 24, rng.below(4), rng.choice(S.LATTICE)) if s % 5 == 4 else S.random_words(rng, 24)
                     jobs.append((fam, ty, p, sp, tp, words))
+    # Gamma with shape < 1 at the extremes of the scale range (beyond the box of E; the source promises the scale is applied last
+    # so that no intermediate overflows): the map must still be the single final product
+    for ty in ("f64", "f32"):
+        big = [1.7e308, 1e308, 3e307, 1e300] if ty == "f64" else [3.3e38, 1e38, 4e37]
+        small = [1e-300, 5e-324] if ty == "f64" else [1e-38, 1e-45]
+        for shape in (0.9, 0.5, 0.1, 0.002):
+            for sc in big + small:
+                p = (S.f_round(ty, shape), S.f_round(ty, sc)); sp = (p[0], 1.0)
+                for s in range(nstreams // 2):
+                    jobs.append(("gamma", ty, p, sp, p, S.random_words(rng, 24)))
     lines = []
     for fam, ty, p, sp, tp, words in jobs:
         w = ",".join("%x" % x for x in words)
@@ -121,14 +134,23 @@ def correspond(ctx):
                                             % (fam, ty, cb, list(tp), ca, list(sp))})
             continue
         base, got = S.bits_val(ty, va), S.bits_val(ty, vb)
-        if not (math.isfinite(base) and math.isfinite(got)):
+        if not math.isfinite(base):
             stats["skipped_nonfinite"] += 1; continue
         exp, tol = relation(fam, ty, p, base)
-        if exp is None or not math.isfinite(exp):
+        if exp is None or math.isnan(exp):
             stats["skipped_nonfinite"] += 1; continue
+        fmax = 3.4028234663852886e38 if ty == "f32" else 1.7976931348623157e308
         if tol == 0:
+            # the map is the last IEEE operation(s): the transformed bits are determined, including overflow to +-inf
             ok = (exp == got) or (exp == 0 and got == 0)
             stats["exact"] += 1
+        elif not (math.isfinite(exp) and math.isfinite(got)):
+            small_gamma = (fam == "gamma" and p[0] < 1.0)
+            if math.isfinite(exp) and not math.isfinite(got) and \
+               ((small_gamma and abs(exp) < fmax / 2) or (abs(exp) < fmax / 1e6 and abs(p[-1]) < fmax / 1e12)):
+                ok = False      # a finite map value away from overflow, but a non-finite sample
+            else:
+                stats["skipped_nonfinite"] += 1; continue
         else:
             ok = abs(exp - got) <= tol * max(ulp(ty, got), ulp(ty, exp))
             stats["within_ulp"] += 1
